@@ -964,6 +964,27 @@ func inlineText(h *helper, f *nfile, caller *ast.FuncDecl, s ast.Stmt, c *ast.Ca
 			}
 		}
 	}
+	if forward && caller.Type.Results != nil {
+		// a bare return of the caller must still see its named results: none of them may
+		// be shadowed by a name the helper declares
+		own := declaredNames(h.decl)
+		// parameters that are not re-declared (same-named argument, only read) do not shadow
+		for i, p := range params {
+			if id, ok := c.Args[i].(*ast.Ident); ok && id.Name == p.Name && !written[p.Name] {
+				delete(own, p.Name)
+			}
+		}
+		for _, fl := range caller.Type.Results.List {
+			for _, nm := range fl.Names {
+				if own[nm.Name] && !(strings.HasPrefix(fwdAssign, nm.Name+" ")) {
+					forward = false
+				}
+				if own[nm.Name] && strings.TrimSpace(fwdBody) == "return" {
+					forward = false
+				}
+			}
+		}
+	}
 	// an error value that is known not to be nil: fmt.Errorf / errors.New, or an Err* variable
 	nonNil := func(e ast.Expr) bool {
 		switch x := e.(type) {
